@@ -55,6 +55,11 @@ def units():
             Unit("flux per triangle", "lemma over the formula of tdgl.em:uniform_Bz_vector_potential", run_flux, props=["C08", "C04"], timeout=300)]
 
 
+def replay_scope(unit, obl):
+    """the native replay of this property searches per unit, not per obligation: run it once per unit"""
+    return "unit"
+
+
 def replay(unit, obl):
     import tdgl
     from checks import physics_native as pn
